@@ -70,13 +70,15 @@ def make_problem(base):
 def drive(base, prob, resume):
     """One call of the real driver on the currently mounted SimFS."""
     jft, lh, pos, kw = prob
-    odir = ROOT + "/out"
+    odir = ROOT + ("/out/deep/vi" if base.get("nested") else "/out")     # nested: several directory creations to cut between
     calls = []
     cb = (lambda s, st: calls.append(int(st.nit))) if base["callback"] else None
     if resume:
         res = (odir + "/last.pkl") if base["resume_path"] else True
     else:
         res = False
+    if base.get("samples_input"):
+        pos = jft.Samples(pos=pos, samples=None, keys=None)      # the driver also accepts a Samples object to start from
     s, st = jft.optimize_kl(lh, pos, odir=odir, resume=res, callback=cb, **kw)
     return s, st
 
@@ -100,7 +102,8 @@ def gen_base(rng):
             "point_estimates": pe, "constants": co, "jit": rng.random() < 0.8,
             "resume_path": rng.random() < 0.3, "callback": rng.random() < 0.5,
             "bufsize": rng.choice([1, 64, 4096, 8192, None]), "key": rng.randrange(1000),
-            "key_kind": rng.choice(["legacy", "legacy", "typed", "typed_rbg"])}
+            "key_kind": rng.choice(["legacy", "legacy", "typed", "typed_rbg"]), "nested": rng.random() < 0.3,
+            "samples_input": rng.random() < 0.3}
 
 
 SIMPLE_BASE = {"model": "lin2", "nit": 2, "n_samples": 1, "sample_mode": "linear_resample",
@@ -175,7 +178,7 @@ def explore(job):
         if dg in seen:
             sig, detail = seen[dg]
         else:
-            has_state = (ROOT + "/out/last.pkl") in fs.files
+            has_state = (ROOT + ("/out/deep/vi" if base.get("nested") else "/out") + "/last.pkl") in fs.files
             sig, detail = resume_on(base, prob, fs, refd)
             seen[dg] = (sig, detail)
             if sig is None:
